@@ -53,6 +53,21 @@ theorem C11_counters_any_options (o : Opts) (ops : List Op) :
   have := nEvents_foldl o ops hno File.empty
   simpa [run, accepted, File.empty] using this
 
+/-- round trip for EVERY option set (also particles trigger-gated or not written), histories without
+reopen: the `i`-th accepted add reads back exactly its own rows in every table the options record
+for it and nothing otherwise (an event without index row recorded nothing at all); and the file
+shows either all accepted events or — while no dataset exists yet — none -/
+theorem C11_round_trip_any_options (o : Opts) (ops : List Op) (hno : ∀ op ∈ ops, isReopen op = false) :
+    (∀ i c e, (accepted ops)[i]? = some (c, e) → ∀ t, getEvent (run o ops) i t =
+        if records o e t then (List.range (e.len t)).map (Row.data c) else []) ∧
+    (numEvents (run o ops) = (accepted ops).length ∨ numEvents (run o ops) = 0) := by
+  have h := rtg_run o ops hno
+  have hz := (invG_run o ops).ixz
+  refine ⟨fun i c e he t => h.2 i c e he t, ?_⟩
+  rcases hz with hz | hz
+  · left; unfold numEvents; rw [hz, h.1]
+  · right; exact hz
+
 /-- reading the file back yields as many events as were accepted -/
 theorem C11_accepted_count (o : Opts) (hA : AlwaysParticles o) (ops : List Op) :
     numEvents (run o ops) = (accepted ops).length :=
@@ -232,3 +247,12 @@ example :
     let f := run o [.rejected ⟨1, false, 0, 0, false, 1⟩ 6]
     accepted [Op.rejected ⟨1, false, 0, 0, false, 1⟩ 6] = [] ∧ f.counter .triggers = 1 ∧ (f.rows .triggers).length = 0 ∧
     numEvents f = 0 ∧ (iterAll f none).1.length = 0 := by decide
+
+/-- `C11_round_trip_any_options` where it matters: particles and triggers trigger-gated; the untriggered
+event in the middle reads back empty, the count is right because a dataset existed before it -/
+example :
+    let o : Opts := { write := fun | .particles => true | .triggers => true | _ => false,
+                      trigOnly := trigOnlyOf (.list (fun | .particles => true | .triggers => true | _ => false)) }
+    let ops : List Op := [.ok ⟨1, true, 0, 0, false, 1⟩, .ok ⟨2, false, 0, 0, false, 1⟩, .ok ⟨1, true, 0, 0, false, 1⟩]
+    numEvents (run o ops) = 3 ∧ getEvent (run o ops) 1 .particles = [] ∧ getEvent (run o ops) 2 .particles = [.data 2 0] := by
+  decide
